@@ -138,7 +138,17 @@ class MHistory:
         MON.reset_cycle()
         d.last_placement = None
         t_lo = self.clock.peek()
-        d.master.reschedule()
+        if d.cutter is not None:
+            d.cutter.arm('reschedule')
+        try:
+            d.master.reschedule()
+        finally:
+            if d.cutter is not None:
+                cutter, d.cutter = d.cutter, None
+                try:
+                    cutter.disarm()
+                finally:
+                    d.cutter = cutter
         d.master.check_placement_integrity()
         t_hi = self.clock.peek()
         d.ops.append(('cycle',))
